@@ -52,7 +52,9 @@ macro_rules! int_extract {
             let in_range = n >= <$t>::MIN as i128 && (n as i128) <= (<$t>::MAX as u128).min(i128::MAX as u128) as i128;
             $ctx.hit(if in_range { concat!("narrow-in-range:", $name) } else { concat!("narrow-out-of-range:", $name) });
             $ctx.nontrivial(fnv(format!("{}|{n}", $name).as_bytes()));
-            match got(guard(|| <$t>::try_from(v.clone()))) {
+            let g = got(guard(|| <$t>::try_from(v.clone())));
+            $ctx.sample(if in_range { concat!("narrow-in-range:", $name) } else { concat!("narrow-out-of-range:", $name) }, || json!({"extract": $name, "from": format!("{v:?}"), "observed": format!("{g:?}")}));
+            match g {
                 Got::Ok(x) => {
                     if !in_range {
                         bad($ctx, $name, "out-of-range-accepted", format!("Int({n}) extracted as {x} (wrapped / truncated)"), &v);
@@ -114,6 +116,7 @@ fn scalar_extract<T: TryFrom<Value, Error = Error> + PartialEq + std::fmt::Debug
         ctx.count();
         ctx.nontrivial(fnv(format!("{name}|{v:?}").as_bytes()));
         let r = got(guard(|| T::try_from(v.clone())));
+        ctx.sample(&format!("extract:{name}:{}", ty(v)), || json!({"extract": name, "from": clip(format!("{v:?}"), 120), "observed": clip(format!("{r:?}"), 160)}));
         match accept(v) {
             Some(want) => {
                 ctx.hit(&format!("roundtrip:{name}"));
